@@ -1081,6 +1081,12 @@ func (p *printer) expr1(expr ast.Expr, prec1, depth int) {
 			p.expr1(x.Default, token.UnaryPrec, depth) // the default is a unary expression
 		}
 	case *ast.LambdaExpr:
+		if prec1 > token.LowestPrec { // operand of an operator / selector / call: needs parentheses
+			p.print(token.LPAREN)
+			p.expr1(x, token.LowestPrec, depth)
+			p.print(token.RPAREN)
+			break
+		}
 		if x.LhsHasParen {
 			p.print(token.LPAREN)
 			p.identList(x.Lhs, false)
@@ -1099,6 +1105,12 @@ func (p *printer) expr1(expr ast.Expr, prec1, depth int) {
 		}
 
 	case *ast.LambdaExpr2:
+		if prec1 > token.LowestPrec { // operand of an operator / selector / call: needs parentheses
+			p.print(token.LPAREN)
+			p.expr1(x, token.LowestPrec, depth)
+			p.print(token.RPAREN)
+			break
+		}
 		if x.LhsHasParen {
 			p.print(token.LPAREN)
 			p.identList(x.Lhs, false)
